@@ -88,7 +88,7 @@ func TestC10(t *testing.T) {
 	mon.Main(t, mon.Check{
 		ID:    "C10",
 		Level: "fault_enumeration",
-		Rule:  "real gbn handshake code in virtual time. Enumeration: every decision vector in {deliver, drop, duplicate in order, delay past the handshake timeout}^(2k) over the first k packets of each direction (k=2 quick: 256 vectors, k=3 thorough: 4096) x 3 start orders (client first, server first, same instant) x 18 stale-prefix configurations (packets of an earlier connection queued in either direction: SYN with another N, SYN(255), SYNACK, DATA, PING, ACK+NACK, FIN and mixes), full product in both tiers; window N rotating over {1,20,254} in quick, N=20 plus all N in 1..254 for the no-fault and single-fault rows in thorough. Drivers behave like the mailbox layer: the server re-listens after a failed or finished connection, the client re-dials (up to 10 attempts) when a constructor fails or its first request is not answered within 20 s; keepalive as the mailbox configures it (7s/3s client, 5s/3s server). Oracles: a server that enters the data phase has a representable window (n != 255, sequence space n+1 > n) that appeared in some SYN delivered to it; when data flows both ends use the client's N; after the faulty prefix a handshake succeeds and one message is delivered in each direction within 15 virtual minutes; no worker death. Non-trivial = at least one fault decision or stale packet; distinct = (vector, order, stale, N).",
+		Rule:  "real gbn handshake code in virtual time. Enumeration: every decision vector in {deliver, drop, duplicate in order, delay past the handshake timeout}^(2k) over the first k packets of each direction (k=2 quick: 256 vectors, k=3 thorough: 4096) x 3 start orders (client first, server first, same instant) x 18 stale-prefix configurations (packets of an earlier connection queued in either direction: SYN with another N, SYN(255), SYNACK, DATA, PING, ACK+NACK, FIN and mixes), full product in both tiers; window N rotating over {1,20,254} in quick, N=20 plus all N in 1..254 for the no-fault and single-fault rows in thorough. Drivers behave like the mailbox layer: the server re-listens after a failed or finished connection, the client re-dials (up to 40 attempts, 0.5 s apart) when a constructor fails or its first request is not answered within 20 s; keepalive as the mailbox configures it (7s/3s client, 5s/3s server). Oracles: a server that enters the data phase has a representable window (n != 255, sequence space n+1 > n) that appeared in some SYN delivered to it; when data flows both ends use the client's N; after the faulty prefix a handshake succeeds and one message is delivered in each direction within 15 virtual minutes; no worker death. Non-trivial = at least one fault decision or stale packet; distinct = (vector, order, stale, N).",
 		Assumptions: []string{
 			"stale SYNs that were really delivered to the server are not held against it (it cannot tell them apart)",
 			"transport preserves per-direction order",
@@ -258,7 +258,17 @@ func runC10Case(c *mon.Case, k int, vec []int, order, stale int, n uint8) {
 		}
 		client := func() {
 			defer wg.Done()
-			for attempt := 0; attempt < 10 && ctx.Err() == nil; attempt++ {
+			for attempt := 0; attempt < 40 && ctx.Err() == nil; attempt++ {
+				if attempt > 0 {
+					// a dialer backs off before it tries again (gRPC
+					// starts at 1 s); without a pause all attempts can
+					// be burnt within a few hundred milliseconds while
+					// packets of the failed ones are still in flight
+					select {
+					case <-ctx.Done():
+					case <-time.After(500 * time.Millisecond):
+					}
+				}
 				g, err := gbn.NewClientConn(ctx, n, p.C2S.Send, p.S2C.Recv, conf.ClientOpts()...)
 				if err != nil {
 					cliErrs.Add(1)
@@ -314,7 +324,7 @@ func runC10Case(c *mon.Case, k int, vec []int, order, stale int, n uint8) {
 		if !converged {
 			rep["wire_c2s"] = wireTail(p.C2S.Log(), 40)
 			rep["wire_s2c"] = wireTail(p.S2C.Log(), 40)
-			viol("no-convergence", fmt.Sprintf("no handshake led to a request/response exchange within 15 virtual minutes and 10 client attempts (client conns %d errs %d, server conns %d errs %d)", cliConns.Load(), cliErrs.Load(), srvConns.Load(), srvErrs.Load()))
+			viol("no-convergence", fmt.Sprintf("no handshake led to a request/response exchange within 15 virtual minutes and 40 client attempts (client conns %d errs %d, server conns %d errs %d)", cliConns.Load(), cliErrs.Load(), srvConns.Load(), srvErrs.Load()))
 		} else if !srvGotReq.Load() {
 			viol("data-flow-mismatch", "client got a response but the server connection that served it did not use the client's N")
 		}
